@@ -115,7 +115,9 @@ func c07Run(sc *C07Scenario) (v *nodeViolation, flags map[string]bool) {
 			i, known := idOf[*td.Msg.TxHash()]
 			wasIn := known && sn.node.memPool.TransactionExists(td.Msg.TxHash())
 			stamp := time.Now()
-			if err := sn.node.processUnconfirmedTx(sn.ctx, td); err != nil {
+			var err error
+			guard("processUnconfirmedTx", func() { err = sn.node.processUnconfirmedTx(sn.ctx, td) })
+			if err != nil {
 				sn.txThreadDead = err.Error()
 			}
 			sn.drain()
